@@ -175,6 +175,7 @@ pub struct World {
     /// C03: hostile peer -- (enabled link fault kinds, 1/rate per packet, faults fired)
     pub hostile: Option<(Vec<usize>, u64, usize)>,
     history: Vec<u8>,
+    hostile_after: usize,
 }
 
 fn viol(ctx: &Ctx, class: &str, msg: String) -> Violation {
@@ -272,7 +273,7 @@ impl World {
     }
 
     fn peer_step(&mut self, ctx: &mut Ctx) {
-        if self.hostile.is_some() && ctx.ch.chance("op.hostile", 1, 3) {
+        if self.hostile.is_some() && self.peer_msgs >= self.hostile_after && ctx.ch.chance("op.hostile", 1, 2) {
             self.hostile_step(ctx);
             return;
         }
@@ -707,6 +708,7 @@ pub fn build(ctx: &mut Ctx, mode: EMode) -> Result<World, Violation> {
         off_ms,
         hostile: None,
         history: Vec::new(),
+        hostile_after: 0,
     })
 }
 
@@ -980,6 +982,8 @@ pub fn run_hostile(ctx: &mut Ctx) -> RunResult {
     let rate = *ctx.ch.pick("cfg.faultrate", &[3u64, 6, 2]);
     w.hostile = Some((kinds, rate, 0));
     let max_msgs = 5 + ctx.ch.draw("op.count", 30) as usize;
+    // hostile bytes arrive after a valid prefix of arbitrary length
+    w.hostile_after = ctx.ch.draw("cfg.hostile_after", max_msgs as u64) as usize;
     loop {
         if w.srv.c.closed || !ctx.step() {
             break;
@@ -992,7 +996,7 @@ pub fn run_hostile(ctx: &mut Ctx) -> RunResult {
             enabled.push(1);
             enabled.push(1);
         }
-        if w.app_calls < 20 && ctx.ch.chance("sched.app", 1, 3) {
+        if w.app_calls < 20 && (!w.model.pending.is_empty() || ctx.ch.chance("sched.app", 1, 3)) {
             enabled.push(2);
         }
         if enabled.is_empty() {
